@@ -46,7 +46,8 @@ META = {
         'thorough': 'painting <=8 frames, all listed frame rates; decoding '
                     'T<=5 x K<=2',
     },
-    'outside': ['rolls larger than the bounds', 'weights roll', 'offsets roll'],
+    'outside': ['rolls larger than the bounds', 'weights roll', 'offsets roll',
+                'onsets delayed to before time 0 (negative onset_delay_ms)'],
 }
 
 _FPS = {'8': 8, '16': 16, '32': 32, '31.25': 31.25, '50': 50, '62.5': 62.5,
@@ -83,6 +84,11 @@ def h_paint(c):
   tt = c.real('tt', 0)
   for n in notes:
     c.assume(n['e'] <= tt)
+    if delay < 0:
+      # an onset delayed to before time 0 is outside the claim (the property
+      # speaks of the note's own first frame; int() truncates towards zero
+      # there while floor() would not)
+      c.assume(n['s'] + delay / 1000. >= 0)
   c.assume(tt * fps + 1 < fmax + 1)
   ns.total_time = tt
   cc_t = c.real('cc_t', 0)
